@@ -257,6 +257,27 @@ Definition attrs_wf_weak (k : kind) (a : attrs) : bool :=
   keys_eqb (akeys a) (data_attrs k) &&
   forallb (fun x => match aget x a with None => true | Some _ => attr_ok k a x end) (data_attrs k).
 
+(* the attribute is written even when it is None (the unguarded stitch_node statement) *)
+Definition always_written (k : kind) (x : string) : bool :=
+  match to_for k x with Some (_, RPrimary EJsonDumpsAlways) => true | _ => false end.
+
+(* the keyword list builds a sliver whose set attributes are all of their kind (for the image pair:
+   both halves given) *)
+Definition values_ok (k : kind) (kvs : list (string * option fval)) : bool :=
+  match blank_with k kvs (blank k) with
+  | Ok a1 => attrs_wf_weak k a1
+  | Err _ => false
+  end.
+
+(* distinct keywords assigning distinct data attributes *)
+Definition kw_targets (k : kind) (kvs : list (string * option fval)) : list string :=
+  flat_map (fun kv => match find_setter k (fst kv) with Some (x, _) => [x] | None => [] end) kvs.
+Definition kws_ok (k : kind) (kvs : list (string * option fval)) : bool :=
+  nodupb (kw_targets k kvs)
+  && forallb (fun kv => match find_setter k (fst kv) with
+                        | Some (x, _) => mem x (data_attrs k)
+                        | None => false end) kvs.
+
 (* the value v is one the setter of property p accepts and stores *)
 Definition value_ok (k : kind) (p : string) (v : fval) : bool :=
   match blank_with k [(p, Some v)] (blank k) with
